@@ -483,3 +483,104 @@ func c03NextLeavesWindow(p *c03pkg, fd *ast.FuncDecl) bool {
 	})
 	return res
 }
+
+// c03ContinuationOffsetZero: the request a query function hands back as continuation (argument of writeQueryRequest, or
+// the value stored into <x>.NextQueryRequest) carries Offset 0: it is a QueryRequest literal without an Offset key (or with
+// the literal 0), directly or through a local variable initialised with such a literal; or it is another request value
+// (e.g. the served request itself) whose Offset field is unconditionally set to the literal 0 at the top level of the
+// function. found=false: no continuation expression was recognised (unknown shape).
+func c03ContinuationOffsetZero(fd *ast.FuncDecl) (ok, found bool) {
+	var conts []ast.Expr
+	ast.Inspect(fd.Body, func(n ast.Node) bool {
+		switch x := n.(type) {
+		case *ast.CallExpr:
+			if calleeName(x) == "writeQueryRequest" && len(x.Args) == 1 {
+				conts = append(conts, x.Args[0])
+			}
+		case *ast.AssignStmt:
+			for i, l := range x.Lhs {
+				if se, isSel := l.(*ast.SelectorExpr); isSel && se.Sel.Name == "NextQueryRequest" && i < len(x.Rhs) {
+					conts = append(conts, x.Rhs[i])
+				}
+			}
+		}
+		return true
+	})
+	if len(conts) == 0 {
+		return false, false
+	}
+	strip := func(e ast.Expr) ast.Expr {
+		for {
+			switch x := e.(type) {
+			case *ast.UnaryExpr:
+				e = x.X
+			case *ast.StarExpr:
+				e = x.X
+			case *ast.ParenExpr:
+				e = x.X
+			default:
+				return e
+			}
+		}
+	}
+	litOK := func(cl *ast.CompositeLit) bool {
+		for _, el := range cl.Elts {
+			kv, isKV := el.(*ast.KeyValueExpr)
+			if !isKV {
+				return false // positional literal: cannot tell
+			}
+			if id, isId := kv.Key.(*ast.Ident); isId && id.Name == "Offset" {
+				if bl, isLit := kv.Value.(*ast.BasicLit); !isLit || bl.Value != "0" {
+					return false
+				}
+			}
+		}
+		return true
+	}
+	// local definitions `x := <lit>` / `x := &<lit>` and top-level `x.Offset = 0`
+	defs := map[string]*ast.CompositeLit{}
+	zeroed := map[string]bool{}
+	ast.Inspect(fd.Body, func(n ast.Node) bool {
+		as, isAs := n.(*ast.AssignStmt)
+		if !isAs || len(as.Lhs) != 1 || len(as.Rhs) != 1 {
+			return true
+		}
+		if id, isId := as.Lhs[0].(*ast.Ident); isId {
+			if cl, isCl := strip(as.Rhs[0]).(*ast.CompositeLit); isCl {
+				defs[id.Name] = cl
+			}
+		}
+		return true
+	})
+	for _, st := range fd.Body.List {
+		if as, isAs := st.(*ast.AssignStmt); isAs && len(as.Lhs) == 1 && len(as.Rhs) == 1 {
+			if se, isSel := as.Lhs[0].(*ast.SelectorExpr); isSel && se.Sel.Name == "Offset" {
+				if id, isId := se.X.(*ast.Ident); isId {
+					if bl, isLit := as.Rhs[0].(*ast.BasicLit); isLit && bl.Value == "0" {
+						zeroed[id.Name] = true
+					}
+				}
+			}
+		}
+	}
+	ok = true
+	for _, c := range conts {
+		switch x := strip(c).(type) {
+		case *ast.CompositeLit:
+			if !litOK(x) {
+				ok = false
+			}
+		case *ast.Ident:
+			if cl, has := defs[x.Name]; has {
+				if !litOK(cl) {
+					ok = false
+				}
+			} else if !zeroed[x.Name] {
+				ok = false
+			}
+		default:
+			ok = false
+		}
+	}
+	return ok, true
+}
